@@ -3,6 +3,7 @@
 package main
 
 import (
+	"encoding/json"
 	"fmt"
 	"math/big"
 
@@ -14,8 +15,25 @@ import (
 
 // A session = one circuit making several Poseidon gadget calls in order.
 type posCall struct {
-	In  []json_num `json:"in"`
-	Out json_num   `json:"out"`
+	In    []json_num        `json:"in"`
+	Wires []json.RawMessage `json:"wires"` // per input: [value] or ["ref", k] = the output wire of call k (1-based)
+	Out   json_num          `json:"out"`
+}
+
+// refOf: k if input j of the call is the output wire of call k, else 0
+func (c *posCall) refOf(j int) int {
+	if j >= len(c.Wires) {
+		return 0
+	}
+	var w []interface{}
+	if json.Unmarshal(c.Wires[j], &w) == nil && len(w) == 2 {
+		if s, ok := w[0].(string); ok && s == "ref" {
+			if k, ok := w[1].(float64); ok {
+				return int(k)
+			}
+		}
+	}
+	return 0
 }
 type c05Cases struct {
 	Mode     string      `json:"mode"` // "small" | "bn254"
@@ -27,20 +45,34 @@ type c05Cases struct {
 type posSessionCircuit struct {
 	In       [][]frontend.Variable
 	Out      []frontend.Variable
+	refs     [][]int // refs[i][j] = k > 0: input j of call i is the OUTPUT WIRE of call k
 	captured []*big.Int
 }
 
 func (c *posSessionCircuit) Define(api frontend.API) error {
 	c.captured = c.captured[:0]
+	outs := make([]frontend.Variable, len(c.In))
 	for i, in := range c.In {
+		arg := func(j int) frontend.Variable {
+			if c.refs != nil && c.refs[i][j] > 0 {
+				// the declared input carries the digest's value; the gadget is fed the WIRE itself
+				api.AssertIsEqual(in[j], outs[c.refs[i][j]-1])
+				return outs[c.refs[i][j]-1]
+			}
+			return in[j]
+		}
 		var o frontend.Variable
 		if len(in) == 1 {
-			o = abstractor.Call(api, gposeidon.Poseidon1{In: in[0]})
+			o = abstractor.Call(api, gposeidon.Poseidon1{In: arg(0)})
 		} else {
-			o = abstractor.Call(api, gposeidon.Poseidon2{In1: in[0], In2: in[1]})
+			o = abstractor.Call(api, gposeidon.Poseidon2{In1: arg(0), In2: arg(1)})
 		}
+		outs[i] = o
 		posCaptured = append(posCaptured, constOf(api, o))
-		api.AssertIsEqual(o, c.Out[i])
+	}
+	// every digest is compared AFTER all calls were made: a digest fed into a later hash is used again here
+	for i := range outs {
+		api.AssertIsEqual(outs[i], c.Out[i])
 	}
 	return nil
 }
@@ -48,9 +80,14 @@ func (c *posSessionCircuit) Define(api frontend.API) error {
 var posCaptured []*big.Int
 
 func posShape(sess []posCall) *posSessionCircuit {
-	c := &posSessionCircuit{In: make([][]frontend.Variable, len(sess)), Out: make([]frontend.Variable, len(sess))}
-	for i, call := range sess {
+	c := &posSessionCircuit{In: make([][]frontend.Variable, len(sess)), Out: make([]frontend.Variable, len(sess)), refs: make([][]int, len(sess))}
+	for i := range sess {
+		call := &sess[i]
 		c.In[i] = make([]frontend.Variable, len(call.In))
+		c.refs[i] = make([]int, len(call.In))
+		for j := range call.In {
+			c.refs[i][j] = call.refOf(j)
+		}
 	}
 	return c
 }
